@@ -3,7 +3,7 @@ append keep the recorded location consistent with the characters."""
 import random
 
 from bcverif import encode as E
-from bcverif.runner import pmap, setup_repo_import
+from bcverif.runner import pmap, setup_repo_import, suite_events
 
 NT_ALPHABETS = ["NT_STRICT", "NT_EXTENDED", "NT_STRICT_GAPPED", "NT_EXTENDED_GAPPED", "NT_STRICT_UNKNOWN"]
 LETTERS = {"NT_STRICT": "ACGT", "NT_EXTENDED": "ATUCGNWSMKRYBDHV", "NT_STRICT_GAPPED": "ACGT-",
@@ -136,6 +136,8 @@ def run(chk):
     big = _random_locs(rnd, 300 if quick else 4000, 400, 6)
     parts = pmap(_events, [(big[i::16], 400, chk.seed * 617 + i, 3) for i in range(16)])
     evs += [e for p in parts for e in p]
+    # leg S: the calls the repository's own tests make, judged with the same clauses
+    evs += suite_events(chk, "C03Trace")
     chk.validate("C03Trace", evs, shard=1500, label="seq", keyfn=_key)
     chk.nontrivial = len({(e[0], str(e[3]) if e[0] == "ext" else str(e[4:9])) for e in evs})
     chk.exhaustive = not quick
